@@ -531,12 +531,21 @@ def announce_cover(check: Check, repo: Repo) -> None:
             cls = unparse(arm.test.args[1])
             if cls not in carriers:
                 continue
-            calls = [c for s in arm.body for c in ast.walk(s) if isinstance(c, ast.Call) and last_attr(c) == "_to_pending_results"]
+            # the branch itself, plus a method of the publisher it hands the event to (one level)
+            scope: list[ast.stmt] = list(arm.body)
+            pub = repo.cls("execution.incremental.incremental_publisher", "IncrementalPublisher")
+            pmethods = {m.name: m for m in pub.body if isinstance(m, (ast.FunctionDef, ast.AsyncFunctionDef))}
+            for s in arm.body:
+                for c in ast.walk(s):
+                    if isinstance(c, ast.Call) and isinstance(c.func, ast.Attribute) and unparse(c.func.value) == "self" and c.func.attr in pmethods \
+                            and any(isinstance(a, ast.Name) and a.id == "event" for a in c.args) and c.func.attr != "_to_pending_results":
+                        scope += pmethods[c.func.attr].body
+            calls = [c for s in scope for c in ast.walk(s) if isinstance(c, ast.Call) and last_attr(c) == "_to_pending_results"]
             ok, why = False, "no _to_pending_results call in this branch"
             if calls:
                 txt = unparse(calls[0])
                 both = all(f"event.{f}" in txt or _alias_of(arm, f) in txt for f in carriers[cls])
-                guards = [a for a in ancestors(calls[0]) if isinstance(a, ast.If) and a is not arm and any(x is a for s in arm.body for x in ast.walk(s))]
+                guards = [a for a in ancestors(calls[0]) if isinstance(a, ast.If) and a is not arm and any(x is a for s in scope for x in ast.walk(s))]
                 g_ok = all(all(f in unparse(g.test) for f in carriers[cls]) for g in guards)
                 ok = both and g_ok
                 why = ("both passed; guard mentions both" if ok else
